@@ -88,7 +88,14 @@ def special_value(rng):
     return 'DNA', dna
   if r < 0.8:
     return 'hyper', space
-  return 'functor', M.add_fn(rng.randint(0, 5))
+  q = rng.random()
+  if q < 0.4:
+    return 'functor', M.add_fn(rng.randint(0, 5))
+  if q < 0.6:
+    return 'functor[a,b]', M.add_fn(rng.randint(0, 5), rng.randint(0, 5))
+  if q < 0.8:
+    return 'functor[b]', M.add_fn(b=rng.randint(0, 5))
+  return 'functor[]', M.add_fn()
 
 
 def make_value(rng):
@@ -217,7 +224,8 @@ def clone_in_scopes(rng, fn, a):
     except pg.WritePermissionError as e:
       e.pgverif_blocking_scope = blocking
       raise
-    except ValueError as e:
+    except (ValueError, TypeError) as e:
+      # (a functor with an unbound argument is refused with TypeError)
       e.pgverif_blocking_scope = ('allow_partial', False) in [(n, v) for n, _, v in chosen]
       raise
   return b, '+'.join(f'{n}({v})' for n, _, v in chosen)
@@ -505,7 +513,7 @@ def run_case(ctx, i):
     scopes = ''
     try:
       b, scopes = clone_in_scopes(rng, fn, a)
-    except (pg.WritePermissionError, ValueError) as e:
+    except (pg.WritePermissionError, ValueError, TypeError) as e:
       ctx.label = None
       if getattr(e, 'pgverif_blocking_scope', False):
         # Whether a copy may be *constructed* while pg.as_sealed(True) /
